@@ -35,6 +35,8 @@ RULES = {
     'C13.j': 'the Arbiter arm of the resolver builds no reply other than Error (no shortcut acknowledges a conflicting write)',
     'C13.e': 'Resolve arm: the primary applies, any other role forwards (both credential branches)',
     'C13.i': 'the conflict-record lister matches what the record writer writes: with the key left empty (the "list all" call of the arbiter registration) the pattern text occurs in the constant head of every record key; with a key, the text after the key hole is a prefix of the writer template\'s text after its key hole',
+    'C13.k': 'the conflict records of a key are handled in arrival order: the key listing they are read from is sorted (C01.c) — the '
+             'Arbiter arm queues a new conflict behind `.last()` of that list, register_arbiter replays it in list order',
 }
 
 
@@ -42,6 +44,24 @@ def run(ck, m):
     _run(ck, m)
     watchers_monotone(ck, m)
     lister_covers_records(ck, m)
+    # "every later write queues behind the previous conflict": the Arbiter arm takes `.last()` of the record list and register_arbiter
+    # replays the list in order — both rely on the key listing being sorted (record names end in increasing op ids).  C01.c's verdict
+    # on the sort is repeated here.
+    from nl import report
+    from props import C01
+    tmp = report.Check('C01', 'quick', 0)
+    try:
+        C01.run(tmp, m)
+    except Exception as e:      # fail closed
+        ck.undecided('C13.k', 'list_keys', 'sorted', 'C01.c could not be evaluated: %s' % e)
+    n_ = 0
+    for o in tmp.obs:
+        if o['rule'] == 'C01.c' and o['key'].endswith(':sorted'):
+            n_ += 1
+            ck.ob('C13.k', o['key'].split(':')[1], 'record-list-sorted', o['verdict'] == 'discharged',
+                  o['what'] + ' (the conflict queue order — `.last()` in the Arbiter arm, the replay order of register_arbiter — is the order of this list)',
+                  o['loc'], verdict=o['verdict'])
+    ck.floor('C13.k', n_, 1, 'sortedness of the key listing')
 
 
 def _run(ck, m):
@@ -366,7 +386,19 @@ def lister_covers_records(ck, m):
     ck.floor('C13.i', len(writers), 1, 'record-key templates ($conflicts template with a key and an id)')
     if not listers or not writers:
         return
+    try:
+        key_lister = m.lister()
+    except Exception:
+        key_lister = None
     for lb, lf, lt in listers:
+        # the records are found through the key listing, which leaves tombstones out: a resolved record that register_arbiter removed
+        # after it was snapshotted stays in the map as a tombstone — a scan of the map itself counts it as an unresolved conflict
+        via = key_lister is not None and any(callee(t_) == key_lister.id for _, t_ in lb.calls())
+        ck.ob('C13.i', short(lb.id), 'records-found-through-the-key-listing', via,
+              'the conflict records are listed by the key listing (tombstones left out)' if via else
+              '%s does not go through the key listing: a record that was cleaned after a snapshot is a tombstone in the map and is returned as '
+              'if it were unresolved — the key stays at the in-conflict marker for ever after its only conflict was resolved, and a new arbiter '
+              'is sent <Empty>' % short(lb.id), lb.loc(lf.bi))
         c0 = lt[0][1]
         c1 = ''.join(x[1] for x in lt[2:] if x[0] == 'lit') if len(lt) > 2 else ''
         for wb, wf, wt in writers:
